@@ -155,9 +155,12 @@ def finish(ctx, required_ops, rule, level='exploration', assumptions=(), exhaust
         outroot = os.path.join(tempfile.gettempdir(), 'verif_scratch_%d%s' % (os.getuid(), os.environ.get('VERIF_SCRATCH_TAG', '')))
     rdir = os.path.join(outroot, 'replays', pid)
     lines = []
+    by_finding = collections.OrderedDict()
     for mech, w, f in listed:
-        lines.append('KNOWN-FINDING: property=%s %s [%s; observed %d times, mechanism %s]' % (
-            pid, f['what'], f['id'], ctx.violation_count[mech], mech))
+        by_finding.setdefault(f['id'], (f, []))[1].append(mech)
+    for fid, (f, mechs) in by_finding.items():          # one line per listed finding
+        lines.append('KNOWN-FINDING: property=%s %s [%s; observed %d times, mechanisms %s]' % (
+            pid, f['what'], fid, sum(ctx.violation_count[m] for m in mechs), ', '.join(mechs)))
     for mech, w, f in real:
         os.makedirs(rdir, exist_ok=True)
         path = os.path.join(rdir, _safe(mech) + '.json')
